@@ -193,6 +193,9 @@ func (ex *Exec) applyModifies(fi *FuncInfo, blk *Block, recv Value, args []Value
 // havocValue returns an arbitrary value of type t (fresh variables).
 func (ex *Exec) havocValue(prefix string, t types.Type, st *State) Value {
 	ts := ex.ts
+	if ex.isAbstractType(t) {
+		return &OpaqueTokV{ID: ts.Fresh(prefix, BVSort(64))}
+	}
 	switch u := t.Underlying().(type) {
 	case *types.Basic:
 		if s, ok := scalarSort(t); ok {
